@@ -11,7 +11,7 @@ worker() {
   rm -rf "$W/verif"; mkdir -p "$W"
   [ -d "$W/repo" ] && git -C /repo worktree remove --force "$W/repo" >/dev/null 2>&1
   git -C /repo worktree add --detach "$W/repo" HEAD >/dev/null 2>&1
-  rsync -a --exclude target --exclude .git --exclude out --exclude fuzz /verif/ "$W/verif/"
+  rsync -a --exclude /.git --exclude /out --exclude /fuzz --exclude incremental /verif/ "$W/verif/"
   sed -i "s#path = \"/repo\"#path = \"$W/repo\"#" "$W/verif/harness/Cargo.toml"
   awk -v n="$N" -v i="$i" 'NR % n == i' "$LIST" | while read ID P; do
     [ -f "$P" ] || continue
